@@ -21,19 +21,25 @@ import (
 var wd struct {
 	mu     sync.Mutex
 	active bool
+	depth  int // brackets may nest (a guarded call inside a guarded step): the watch ends with the OUTERMOST Leave
 	since  time.Time
 	r      *Recorder
 }
 
 func (r *Recorder) Enter() {
 	wd.mu.Lock()
+	wd.depth++
 	wd.active, wd.since, wd.r = true, time.Now(), r
 	wd.mu.Unlock()
 }
 
 func (r *Recorder) Leave() {
 	wd.mu.Lock()
-	wd.active = false
+	if wd.depth > 0 {
+		wd.depth--
+	}
+	wd.active = wd.depth > 0
+	wd.since = time.Now() // (an inner call came back: that is progress)
 	wd.mu.Unlock()
 }
 
